@@ -31,17 +31,16 @@ MODULE_TEXT = """FR DEFINITIONS AUTOMATIC TAGS ::= BEGIN
   E0 ::= SEQUENCE { a BOOLEAN, ... }
   Eb ::= SEQUENCE { a BOOLEAN, ..., b SEQUENCE OF BOOLEAN, c OCTET STRING }
   E1 ::= SEQUENCE { a BOOLEAN, ..., b SEQUENCE OF BOOLEAN }
-  Eg ::= SEQUENCE { a BOOLEAN, ..., [[ b OCTET STRING, c BOOLEAN ]] }
+  Ec ::= SEQUENCE { a BOOLEAN, ..., b OCTET STRING, c BOOLEAN }
   El ::= SEQUENCE { a BOOLEAN, ..., b SEQUENCE OF INTEGER (0..255) }
   Ca ::= CHOICE { a NULL, ..., b OCTET STRING }
-  C0 ::= CHOICE { a NULL, ... }
   En ::= SEQUENCE { a BOOLEAN, ..., e Ea }
   FR-CLASS ::= CLASS { &id INTEGER UNIQUE, &Type } WITH SYNTAX { ID &id TYPE &Type }
   FrSet FR-CLASS ::= { { ID 1 TYPE Os } | { ID 2 TYPE Li } | { ID 3 TYPE Ea } }
   Io ::= SEQUENCE { id FR-CLASS.&id({FrSet}), value FR-CLASS.&Type({FrSet}{@id}) }
 END
 """
-DEFS = ["Os", "Ow", "Ox", "Bs", "Ia", "Nu", "Ut", "Bm", "Un", "In", "Lb", "Li", "Sb", "Lx", "Ea", "E0", "Eb", "E1", "Eg", "El", "Ca", "C0", "En", "Io"]
+DEFS = ["Os", "Ow", "Ox", "Bs", "Ia", "Nu", "Ut", "Bm", "Un", "In", "Lb", "Li", "Sb", "Lx", "Ea", "E0", "Eb", "E1", "Ec", "El", "Ca", "En", "Io"]
 
 
 def module():
@@ -133,10 +132,10 @@ def consistent(t, fr):
 
 
 def program(t, fr):
-    """the `d4f` program of tree t, and the bit offsets of every length determinant in the result"""
+    """the `d4f` program of tree t, its size in bits, and the bit offsets of every length determinant in the result"""
     ops = []
-    marks = _prog(t, fr, ops)
-    return ";".join(ops), marks
+    n, marks = _prog(t, fr, ops)
+    return ";".join(ops), n, sorted(marks)
 
 
 def _prog(t, fr, ops):
@@ -276,9 +275,6 @@ def content_units(pat, n, ub):
     return (p * (n // m + 2))[:n]
 
 
-NUMERIC = b" 0123456789"
-
-
 def der_string(kind, u):
     if kind in ("Os", "Ow", "Ox"):
         return tlv(0x04, u)
@@ -286,8 +282,6 @@ def der_string(kind, u):
         return tlv(0x16, u)
     if kind == "Ut":
         return tlv(0x0c, u)
-    if kind == "Nu":
-        return tlv(0x12, bytes(NUMERIC[x] for x in u))
     if kind == "Bm":
         return tlv(0x1e, b"".join(b"\x00" + bytes([x]) for x in u))
     if kind == "Un":
@@ -325,7 +319,9 @@ class T:
 
 def string_type(name, ub, patmax, prefix=""):
     tr = (lambda n: seq(bits(prefix), lenf(ub, units(n, ub), 0))) if prefix else (lambda n: lenf(ub, units(n, ub), 0))
-    return T(name, ub, patmax, tr, lambda u: der_string(name, u), [("str", {8: 1, 7: 1, 4: 1, 16: 2, 32: 4, 1: 0}[ub])], maxsum=(6 if ub == 32 else 12))
+    # (C01-uper-numericstring-range: what a NumericString decodes to is not what X.691 says; no expectation of our own there)
+    return T(name, ub, patmax, tr, (None if name == "Nu" else (lambda u: der_string(name, u))), [("str", {8: 1, 7: 1, 4: 1, 16: 2, 32: 4, 1: 0}[ub])], maxsum=(6 if ub == 32 else 12),
+             canon_re=(name != "Bs"))      # (C01-uper-bitstring-trailing-zero: the encoder's BIT STRING is not the value's)
 
 
 def ext_prefix(nadd, present):
@@ -358,14 +354,17 @@ TYPES = [
       lambda u: tlv(0x30, b"\x80\x01\xff" + tlv(0xa1, bool_list([1, 0, 1])) + tlv(0x82, u)), [("ot", 1), ("str", 1)]),
     T("E1<Eb", 8, 255, lambda n: seq(bits(ext_prefix(2, "11")), bits("00000010" + "00000011" + "10100000"), opent(lenf(8, units(n, 8), 1), 0)),
       lambda u: tlv(0x30, b"\x80\x01\xff" + tlv(0xa1, bool_list([1, 0, 1]))), [("ot", 1), ("none", 0)], reader="E1", canon_re=False),
-    T("Eg", 8, 255, lambda n: seq(bits(ext_prefix(1, "1")), opent(seq(lenf(8, units(n, 8), 1), bits("1")), 0)),
+    # the fragmented addition is FOLLOWED by another one (what the reassembly leaves behind is read on), also for a reader
+    # that knows only the first of the two
+    T("Ec", 8, 255, lambda n: seq(bits(ext_prefix(2, "11")), opent(lenf(8, units(n, 8), 1), 0), bits("00000001" + "10000000")),
       lambda u: tlv(0x30, b"\x80\x01\xff" + tlv(0x81, u) + b"\x82\x01\xff"), [("ot", 1), ("str", 1)]),
+    T("Ea<Ec", 8, 255, lambda n: seq(bits(ext_prefix(2, "11")), opent(lenf(8, units(n, 8), 1), 0), bits("00000001" + "10000000")),
+      lambda u: tlv(0x30, b"\x80\x01\xff" + tlv(0x81, u)), [("ot", 1), ("str", 1)], reader="Ea", canon_re=False),
     T("El", 8, 255, lambda n: seq(bits(ext_prefix(1, "1")), opent(lenf(8, units(n, 8), 1), 0)),
       lambda u: tlv(0x30, b"\x80\x01\xff" + tlv(0xa1, int_list(u))), [("ot", 1), ("list", 0)], heavy=True, maxsum=4),
     T("Ca", 8, 255, lambda n: seq(bits("1" + "0000000"), opent(lenf(8, units(n, 8), 1), 0)),
       lambda u: tlv(0x81, u), [("ot", 1), ("str", 1)]),
-    T("C0<Ca", 8, 255, lambda n: seq(bits("1" + "0000000"), opent(lenf(8, units(n, 8), 1), 0)),
-      None, [("ot", 1), ("none", 0)], reader="C0", canon_re=False),
+    # (an extensible CHOICE that meets an alternative it does not know is RC_FAIL in UPER before any open type is read)
     T("En", 8, 255, lambda n: seq(bits(ext_prefix(1, "1")), opent(seq(bits(ext_prefix(1, "1")), opent(lenf(8, units(n, 8), 2), 1)), 0)),
       lambda u: tlv(0x30, b"\x80\x01\xff" + tlv(0xa1, b"\x80\x01\xff" + tlv(0x81, u))), [("ot", 1), ("ot", 1), ("str", 1)]),
     # information-object open types: id (unconstrained INTEGER: length 1, value) selects the row
